@@ -34,6 +34,10 @@ func (w *recWriter) ReadFrom(r io.Reader) (int64, error) {
 	return int64(n), err
 }
 
+// WriteString makes the recording writer an io.StringWriter, like net/http's own response writer (rux's writer is none,
+// so this is only reached if it delegates to it)
+func (w *recWriter) WriteString(s string) (int, error) { return w.Write([]byte(s)) }
+
 // Hijack makes the recording writer an http.Hijacker (no real connection is involved)
 func (w *recWriter) Hijack() (net.Conn, *bufio.ReadWriter, error) {
 	w.log = append(w.log, L(A("hijacked")))
